@@ -551,3 +551,7 @@ package smtp
 //@ at smtp.scramAuth.handleServerFirstResponse base64.Encoding.Decode#1 after ghost[C14:g] world.saltoff = offof(arg1)
 //@ at smtp.scramAuth.handleServerFirstResponse base64.Encoding.Decode#1 after ghost[C14:g] world.saltn = r0
 //@ at smtp.scramAuth.handleServerFirstResponse pbkdf2.Key#1 before assert[C14:whole-decoded-salt-handed-to-hi] arrof(arg1) == world.saltarr && offof(arg1) == world.saltoff && len(arg1) == world.saltn
+
+// C14 (continued): the tls-exporter channel binding is the keying material RFC 9266 defines: label
+// "EXPORTER-Channel-Binding", empty context, 32 bytes - whatever hash the mechanism uses
+//@ at smtp.scramAuth.initialClientMessage tls.ConnectionState.ExportKeyingMaterial#1 before assert[C14:rfc9266-exporter] arg1 == "EXPORTER-Channel-Binding" && len(arg2) == 0 && arg3 == 32
